@@ -29,7 +29,8 @@
 (* are invisible.  The switches E.sw re-create design errors the model     *)
 (* must reject (negative configurations): the cache kept across rollback   *)
 (* (the repaired defect 8b4d5e4), a key without the row index, vend moved  *)
-(* by max(), lastForce kept across rollback.                               *)
+(* by max(), lastForce kept across rollback, the remembered fast-forward   *)
+(* tokens kept across rollback (the seeded change C12-c).                  *)
 (*                                                                         *)
 (* E = [G, L, skip, start, tok, eos, order, alpha, sw, canon, maxlen];     *)
 (* tok[t + 1] = bytes of token t; order = the text tokens in trie          *)
@@ -316,7 +317,8 @@ Rollback(E, s, k) ==
              newLen == s.nb - DropLen(E, SubSeq(s.toks, keep + 1, Len(s.toks)))
              stack == SubSeq(s.stack, 1, newLen + 1)
          IN  [s |-> [s EXCEPT !.toks = SubSeq(s.toks, 1, keep), !.nb = newLen, !.bytes = SubSeq(s.bytes, 1, newLen),
-                              !.stack = stack, !.vend = LastOf(stack).row, !.topEos = FALSE, !.stop = "none", !.accCache = "none", !.ffCache = <<>>,
+                              !.stack = stack, !.vend = LastOf(stack).row, !.topEos = FALSE, !.stop = "none", !.accCache = "none",
+                              !.ffCache = IF E.sw.clearFFOnRollback THEN <<>> ELSE s.ffCache,
                               !.lastForce = IF E.sw.resetLastForce THEN -1 ELSE s.lastForce,
                               !.cache = IF E.sw.clearOnRollback THEN <<>> ELSE s.cache],
               res |-> <<"ok">>]
